@@ -2,7 +2,86 @@ package main
 
 // helpers shared by the C05 (OBJ) and C07 (STL) streams
 
-import "encoding/hex"
+import (
+	"bufio"
+	"bytes"
+	"encoding/hex"
+	"io"
+	"testing/iotest"
+)
+
+// ---- reader variety: the same bytes through readers with different Read granularity ----------------------
+
+type objstlChunkReader struct {
+	data  []byte
+	sizes []int
+	k     int
+}
+
+func (r *objstlChunkReader) Read(p []byte) (int, error) {
+	if len(r.data) == 0 {
+		return 0, io.EOF
+	}
+	n := r.sizes[r.k%len(r.sizes)]
+	r.k++
+	if n > len(p) {
+		n = len(p)
+	}
+	if n > len(r.data) {
+		n = len(r.data)
+	}
+	copy(p, r.data[:n])
+	r.data = r.data[n:]
+	return n, nil
+}
+
+type objstlReaderKind struct {
+	name string
+	mk   func(bs []byte) io.Reader
+}
+
+var objstlChunkSizes = []int{1, 7, 49, 50, 51, 79, 80, 81, 83, 84, 85, 4096, 4097}
+
+var objstlReaders = []objstlReaderKind{
+	{"bytes.Reader", func(bs []byte) io.Reader { return bytes.NewReader(bs) }},
+	{"bytes.Buffer", func(bs []byte) io.Reader { return bytes.NewBuffer(append([]byte(nil), bs...)) }},
+	{"bufio-16", func(bs []byte) io.Reader { return bufio.NewReaderSize(bytes.NewReader(bs), 16) }},
+	{"bufio-83", func(bs []byte) io.Reader { return bufio.NewReaderSize(iotest.OneByteReader(bytes.NewReader(bs)), 83) }},
+	{"bufio-4096", func(bs []byte) io.Reader { return bufio.NewReaderSize(bytes.NewReader(bs), 4096) }},
+	{"OneByteReader", func(bs []byte) io.Reader { return iotest.OneByteReader(bytes.NewReader(bs)) }},
+	{"HalfReader", func(bs []byte) io.Reader { return iotest.HalfReader(bytes.NewReader(bs)) }},
+	{"DataErrReader", func(bs []byte) io.Reader { return iotest.DataErrReader(bytes.NewReader(bs)) }},
+	{"chunks", func(bs []byte) io.Reader { return &objstlChunkReader{data: bs, sizes: objstlChunkSizes} }},
+	{"chunks-rev", func(bs []byte) io.Reader {
+		return &objstlChunkReader{data: bs, sizes: []int{85, 84, 83, 81, 80, 79, 51, 50, 49, 7, 1}}
+	}},
+	{"pipe-3-writes", func(bs []byte) io.Reader { // a writer goroutine that delivers the bytes in uneven writes
+		pr, pw := io.Pipe()
+		go func() {
+			cuts := []int{80, 4, 50, 1, 4095}
+			rest := bs
+			for i := 0; len(rest) > 0; i++ {
+				n := cuts[i%len(cuts)]
+				if n > len(rest) {
+					n = len(rest)
+				}
+				if _, err := pw.Write(rest[:n]); err != nil {
+					return
+				}
+				rest = rest[n:]
+			}
+			pw.Close()
+		}()
+		return pr
+	}},
+}
+
+// drains what a decoder left unread in a pipe so that its writer goroutine can finish
+func objstlDrain(r io.Reader) {
+	if pr, ok := r.(*io.PipeReader); ok {
+		pr.Close()
+	}
+}
 
 func hx(b []byte) string {
 	if len(b) == 0 {
